@@ -6,7 +6,8 @@ import RedoModel.Lemmas.Once.DepsWFOps
 `ran_nodup_of_wf`: the list of executed scripts of a top-level `redo-ifchange` has no repetition, provided the
 world is well formed (`WF`, true of every reachable world) and *clean* (`Clean`): the `//ALWAYS` pseudo file does
 not exist as a file, .do files and the files named by `redo-ifcreate` have no build rule, and every overridden
-file is in step with its record.  None of the three cleanliness conditions can be dropped: see
+file that exists carries no failure mark and is still recorded as generated (or is in step with its record; since the
+repair of `start_self` it may have been edited again).  None of the three cleanliness conditions can be dropped: see
 `RedoModel/Lemmas/DepsOnceCex.lean` for reachable counterexamples.  The defect switch `oobRebuildsDepsNotTarget`
 must be off; the other two switches are arbitrary.
 -/
@@ -100,8 +101,11 @@ structure Clean (w : World) : Prop where
   /-- no file is named like the `//ALWAYS` pseudo file -/
   f0 : w.fs alwaysId = none
   g0 : (w.recs alwaysId).isGenerated = false
-  /-- every overridden file is in step with its record (it was not edited again, and no failure is recorded) -/
-  ov : ∀ z, (w.recs z).isOverride = true → (w.recs z).failed = none ∧ (w.recs z).stamp = some (readStamp w z)
+  /-- every overridden file that exists carries no failure mark and is still recorded as generated, or is in step
+  with its record (it may have been edited again since the override was noticed: `start_self` records the new
+  stamp when it visits the file; a removed overridden file is unconstrained) -/
+  ov : ∀ z, (w.recs z).isOverride = true → existsF w z = true →
+    (w.recs z).failed = none ∧ ((w.recs z).isGenerated = true ∨ (w.recs z).stamp = some (readStamp w z))
 
 /-- The statement: the scripts run by `redo-ifchange ts` from `w` are pairwise different. -/
 def RanNodupFrom (d : Defects) (n : Nat) (w : World) (ts : List Nat) (kg : Bool) : Prop :=
@@ -149,10 +153,11 @@ theorem rinv_start {w : World} (hwf : WF w) (hc : Clean w) :
       · rw [hg] at h; cases h
       · rw [ho] at h; cases h
       · subst h; exact hchR y hy hcc
-  · intro z hz
+  · intro z hz hex
     obtain ⟨c, hc'⟩ := getRec_fields { w with trace := [], runCounter := w.runCounter + 1 } (w.runCounter + 1) z
     rw [hc'] at hz ⊢
-    exact hc.ov z hz
+    obtain ⟨o1, o2⟩ := hc.ov z hz hex
+    exact .inr ⟨o1, o2.symm⟩
   · intro z hz
     rw [hnck z] at hz; cases hz
   · intro z hz; cases hz
